@@ -496,3 +496,8 @@ def run(chk: Check) -> None:
     d2_sole_writers(chk)
     d3_anchor(chk)
     d4_d5(chk)
+    # tail creation (create-then-set histories): padded list slots must be
+    # distinct objects, or a later set through one slot changes bystanders
+    from rules.c09 import padding_fresh
+    padding_fresh(chk, "C03-D2b",
+                  chk.prog.func("Processor._get_optional_nodes"))
